@@ -2039,7 +2039,9 @@ def check_implied(context, expr, decls):
         expr  - implied attribute value
         decls - list of Declarations
     """
-    node = declast.ExprParser(expr).expression()
+    parser = declast.ExprParser(expr)
+    node = parser.expression()
+    parser.mustbe("EOF")
     visitor = CheckImplied(context, expr, decls)
     return visitor.visit(node)
 
